@@ -77,6 +77,9 @@ func (m *MonC04) AfterTx(o *TxOutcome) {
 		rep.Class("C04.known.orphaned-total")
 		return
 	}
+	if a.TotalValidatorShares.IsPositive() && a.TotalValidatorShares.TruncateInt().IsZero() && a.TotalTokens.IsPositive() {
+		rep.Class("C04.asset-share-total-below-one") // all holders slashed repeatedly: less than one validator share backs the whole stake
+	}
 	tt := ratInt(a.TotalTokens)
 	if pa, ok := o.Post.Assets[den]; ok && pa.TotalTokens.GT(a.TotalTokens) {
 		tt = ratInt(pa.TotalTokens)
